@@ -11,7 +11,11 @@ require golang.org/x/sys v0.41.0
 require github.com/twmb/franz-go v1.20.7
 
 require (
+	github.com/andybalholm/brotli v1.0.5 // indirect
 	github.com/klauspost/compress v1.18.4 // indirect
 	github.com/pierrec/lz4/v4 v4.1.25 // indirect
 	github.com/twmb/franz-go/pkg/kmsg v1.12.0 // indirect
+	github.com/valyala/bytebufferpool v1.0.0 // indirect
 )
+
+require github.com/valyala/fasthttp v1.48.0
